@@ -140,6 +140,37 @@ def run(F, R):
             term = app_term or ""
             R.check("C17-R4", "request-order", term.startswith("collect::<std::vec::Vec<serde_json::Value>>(map(iter(unwrap(as_array(unwrap(get(unwrap(get(") and "'request'" in term and "'app'" in term and ", |$1| " in term and not any(k in term.split("|$1|")[0] for k in ("filter", "skip", "take", "rev(", "step_by")),
                     term[:120], "app list is built as %s" % term[:200])
+        # a request without any updatecheck (event reports, pings) must get past the configured-app-count assertion: the
+        # assertion's failing branch is reachable only when the count is not zero
+        fails_ = [bi for bi, t in cv.calls(reachable_only=True) if t.get("t") is None and ("assert_failed" in (t.get("callee") or "") or "panic" in (t.get("callee") or "")) and not is_logging_span(t["sp"])]
+        cnt_sw = []
+        for bi in sorted(cv.reach0):
+            tt_ = cv.blocks[bi]["t"]
+            if tt_["k"] == "switch" and cv.switch_subject(bi) is None and cv.crate.types[tt_["ot"]]["s"] in ("usize", "u32", "u64") and any(a_[0] == 0 for a_ in tt_.get("arms", [])):
+                if "count(" in terms.render(cv, cv.trace_op(tt_["o"]), W, {}) and "updatecheck" in terms.render(cv, cv.trace_op(tt_["o"]), W, {}):
+                    cnt_sw.append((bi, [a_[1] for a_ in tt_["arms"] if a_[0] == 0][0]))
+        # the assertion in question: the failing side of `count == configured apps`
+        cnt_asserts = []
+        for bi in sorted(cv.reach0):
+            tt_ = cv.blocks[bi]["t"]
+            if tt_["k"] == "switch" and cv.switch_subject(bi) is None and cv.crate.types[tt_["ot"]]["s"] == "bool":
+                r_ = terms.render(cv, cv.trace_op(tt_["o"]), W, {})
+                if r_.startswith(("Eq(count(", "eq(count(")) or ("count(" in r_[:12] and "updatecheck" in r_):
+                    cnt_asserts += [f_ for f_ in fails_ if "assert_failed" in (cv.blocks[f_]["t"].get("callee") or "") and f_ in cv.succ[bi]]
+        # edges on which the count is known to be non-zero: the non-zero arms of `match count { 0 => .., n => .. }`, or the
+        # true side of `count != 0` / `count > 0`, the false side of `count == 0`
+        nonzero = []
+        for sb_, z_ in cnt_sw:
+            nonzero += [(sb_, b_) for b_ in cv.succ[sb_] if b_ != z_]
+
+        def _cnt_cmp(t, ops):
+            t = strip(t)
+            return t[0] == "binop" and t[1] in ops and "count(" in fmt_t(t[2]) and lib.term_const(cv.crate, strip(t[3])) == 0
+        nonzero += [(a, b) for (a, b, tr) in cv.bool_edges(lambda t: _cnt_cmp(t, ("Ne", "Gt"))) if tr]
+        nonzero += [(a, b) for (a, b, tr) in cv.bool_edges(lambda t: _cnt_cmp(t, ("Eq",))) if not tr]
+        if cnt_asserts:
+            R.check("C17-R3", "no-updatecheck-requests-pass-the-count-check", bool(nonzero) and all(cv.dominated_by_edge(bi, nonzero) for bi in cnt_asserts),
+                    "the app-count assertion is skipped for requests without updatecheck", "a request without updatecheck (event report, ping) reaches the app-count assertion and panics")
         cl = [b for b in s.bodies if b["kind"] == "closure" and b.get("parent") == co[0]["id"] and any(lib.callee_is(t, "serde_json::to_value") for _, t in BV.of(b).calls())]
         cl = [b for b in cl if len(BV.of(b).blocks) > 100]
         if R.floor("C17-R3", "per-app response closure", len(cl), 1):
@@ -185,6 +216,11 @@ def run(F, R):
                     else:
                         R.check("C17-R3", "kind:" + vn, not miss, "updatecheck has every key the client requires", "%s response lacks %s: the client's parser rejects it" % (vn, miss))
                     st = ((sh.get("object") or {}).get("status") or {}).get("term")
+                    urg = ((sh.get("object") or {}).get("_urgent_update") or {}).get("term")
+                    if vn == "UrgentUpdate":
+                        R.check("C17-R3", "urgent-flag:" + vn, str(urg) in ("true", "const true", "True"), "_urgent_update: true", "the UrgentUpdate answer carries _urgent_update = %s: the configured decision is not the one the client reads" % urg)
+                    elif vn in ("Update", "NoUpdate", "InvalidURL"):
+                        R.check("C17-R3", "urgent-flag:" + vn, urg is None or str(urg) in ("false", "const false", "False"), "no urgent flag", "%s answers with _urgent_update = %s" % (vn, urg))
                     if vn in ("Update", "UrgentUpdate", "InvalidURL"):
                         R.check("C17-R3", "status:" + vn, st == "'ok'", str(st), "%s answers status %s" % (vn, st))
                     if vn == "NoUpdate":
